@@ -212,7 +212,7 @@ structure Start (ud : Bool) (dv : Option Bytes) (sk T : Bytes) (c : Ctx) : Prop 
 
 /-- inside chunk `k` (= `ch`), `c.dataLoc` of its stored bytes consumed.  `sk` = bytes taken out of the stream before (the
 dictionary), `T` = bytes handed to the caller. -/
-structure Mid (ud : Bool) (n : Nat) (dv : Option Bytes) (sk T : Bytes) (c : Ctx) (k : Nat) (ch : Chunk) : Prop where
+structure Mid (tr : Bool) (ud : Bool) (n : Nat) (dv : Option Bytes) (sk T : Bytes) (c : Ctx) (k : Nat) (ch : Chunk) : Prop where
   base : Base h dv c
   eof : c.dataEof = false
   idx : c.dataIdx = some k
@@ -221,7 +221,7 @@ structure Mid (ud : Bool) (n : Nat) (dv : Option Bytes) (sk T : Bytes) (c : Ctx)
   pres : (fileRead f (dOff h) (ch.start + c.dataLoc)).length = ch.start + c.dataLoc
   pos : c.pos = dOff h + ch.start + c.dataLoc
   chash : c.chunkHash = some (fileRead f (dOff h + ch.start) c.dataLoc)
-  fhash : f4 h = true ∨ c.fullHash = some (fileRead f (dOff h) (ch.start + c.dataLoc))
+  fhash : f4 h = true ∨ (if tr then c.fullHash = some (fileRead f (dOff h) (ch.start + c.dataLoc)) else c.fullHash.isSome = true)
   dataZ : h.compType ≠ 0 → c.data = fileRead f (dOff h + ch.start) c.dataLoc
   acct : sk ++ T ++ c.dc ++ (if h.compType = 0 then c.data else []) =
          done D f h k ++ (if h.compType = 0 then fileRead f (dOff h + ch.start) c.dataLoc else [])
@@ -231,23 +231,23 @@ structure Mid (ud : Bool) (n : Nat) (dv : Option Bytes) (sk T : Bytes) (c : Ctx)
   nsk : ¬ Skipped k ch
 
 /-- every chunk consumed and verified -/
-structure Fin (ud : Bool) (dv : Option Bytes) (sk T : Bytes) (c : Ctx) : Prop where
+structure Fin (tr : Bool) (ud : Bool) (dv : Option Bytes) (sk T : Bytes) (c : Ctx) : Prop where
   base : Base h dv c
   eof : c.dataEof = true
   pres : (fileRead f (dOff h) (total h)).length = total h
-  fhash : f4 h = true ∨ c.fullHash = some (fileRead f (dOff h) (total h))
+  fhash : f4 h = true ∨ (if tr then c.fullHash = some (fileRead f (dOff h) (total h)) else c.fullHash.isSome = true)
   acct : sk ++ T ++ c.dc = done D f h h.chunks.length
   needs : AllNeed H D f h h.chunks.length
   pa : ud = false → h.chunks.length = 1
 
-inductive SI (ud : Bool) (n : Nat) (dv : Option Bytes) (sk T : Bytes) (c : Ctx) : Prop where
-  | start : Start D f h ud dv sk T c → SI ud n dv sk T c
-  | mid (k : Nat) (ch : Chunk) : Mid H D f h ud n dv sk T c k ch → SI ud n dv sk T c
-  | fin : Fin H D f h ud dv sk T c → SI ud n dv sk T c
+inductive SI (tr : Bool) (ud : Bool) (n : Nat) (dv : Option Bytes) (sk T : Bytes) (c : Ctx) : Prop where
+  | start : Start D f h ud dv sk T c → SI tr ud n dv sk T c
+  | mid (k : Nat) (ch : Chunk) : Mid H D f h tr ud n dv sk T c k ch → SI tr ud n dv sk T c
+  | fin : Fin H D f h tr ud dv sk T c → SI tr ud n dv sk T c
 
 variable {H D f h}
 
-theorem SI.base {ud n dv sk T c} (s : SI H D f h ud n dv sk T c) : Base h dv c := by
+theorem SI.base {ud n dv sk T c} (s : SI H D f h tr ud n dv sk T c) : Base h dv c := by
   cases s with
   | start s => exact s.base
   | mid k ch s => exact s.base
@@ -256,8 +256,8 @@ theorem SI.base {ud n dv sk T c} (s : SI H D f h ud n dv sk T c) : Base h dv c :
 theorem flag4_eq {c : Ctx} (hc : c.hdr = h) : flag4 c = f4 h := by simp [flag4, f4, hc]
 
 /-- handing out buffered bytes keeps the invariant -/
-theorem SI.handout {ud n dv sk T c} (m : Nat) (s : SI H D f h ud n dv sk T c) :
-    SI H D f h ud n dv sk (T ++ c.dc.take m) { c with dc := c.dc.drop m } := by
+theorem SI.handout {ud n dv sk T c} (m : Nat) (s : SI H D f h tr ud n dv sk T c) :
+    SI H D f h tr ud n dv sk (T ++ c.dc.take m) { c with dc := c.dc.drop m } := by
   have key : ∀ X : Bytes, sk ++ (T ++ c.dc.take m) ++ c.dc.drop m ++ X = sk ++ T ++ c.dc ++ X := by
     intro X
     simp only [List.append_assoc]
@@ -289,8 +289,8 @@ theorem SI.handout {ud n dv sk T c} (m : Nat) (s : SI H D f h ud n dv sk T c) :
 
 
 /-- "none": the pending stored bytes move to the output buffer -/
-theorem Mid.moveData {ud n dv sk T c k ch} (s : Mid H D f h ud n dv sk T c k ch) (hz : h.compType = 0) :
-    Mid H D f h ud n dv sk T { c with dc := c.dc ++ c.data, data := [] } k ch := by
+theorem Mid.moveData {ud n dv sk T c k ch} (s : Mid H D f h tr ud n dv sk T c k ch) (hz : h.compType = 0) :
+    Mid H D f h tr ud n dv sk T { c with dc := c.dc ++ c.data, data := [] } k ch := by
   refine ⟨⟨s.base.hdr, s.base.noerr, s.base.started, s.base.dict⟩, s.eof, s.idx, s.chk, s.loc, s.pres, s.pos,
     s.chash, s.fhash, fun hne => absurd hz hne, ?_, s.needs, s.dictOk, ?_, s.nsk⟩
   · have := s.acct
@@ -316,7 +316,7 @@ theorem head_get (cs : List Chunk) (d : Chunk) (hd : cs.head? = some d) : cs[0]?
 theorem Start.first {ud n dv sk T c} (s : Start D f h ud dv sk T c) (hr : C13.RunFrom 0 0 h.chunks) (hn : 0 < n)
     (hpa : ud = false → ∃ d, h.chunks.head? = some d ∧ d.len = n)
     (i : Nat) (hi : firstIdx h = some i) :
-    ∃ ch, Mid H D f h ud n dv sk T { c with dataIdx := some i, chunkHash := some [] } i ch := by
+    ∃ ch, Mid H D f h tr ud n dv sk T { c with dataIdx := some i, chunkHash := some [] } i ch := by
   unfold firstIdx at hi
   cases hd : h.chunks.head? with
   | none => rw [hd] at hi; cases hi
@@ -338,7 +338,9 @@ theorem Start.first {ud n dv sk T c} (s : Start D f h ud dv sk T c) (hr : C13.Ru
         · simp [s.loc, hs1, fileRead_zero]
         · simp [s.loc, hs1, s.pos]
         · simp [s.loc, fileRead_zero]
-        · simpa [s.loc, hs1, fileRead_zero] using s.fhash
+        · rcases s.fhash with h4 | hfh
+          · exact Or.inl h4
+          · right; cases tr <;> simp [s.loc, hs1, fileRead_zero, hfh]
         · intro _; simp [s.loc, fileRead_zero, s.data]
         · have hd1 : done D f h 1 = [] := by
             rw [done_succ D f h 0 d h0, done_zero]
@@ -363,7 +365,9 @@ theorem Start.first {ud n dv sk T c} (s : Start D f h ud dv sk T c) (hr : C13.Ru
       · simp [s.loc, hs0, fileRead_zero]
       · simp [s.loc, hs0, s.pos]
       · simp [s.loc, fileRead_zero]
-      · simpa [s.loc, hs0, fileRead_zero] using s.fhash
+      · rcases s.fhash with h4 | hfh
+        · exact Or.inl h4
+        · right; cases tr <;> simp [s.loc, hs0, fileRead_zero, hfh]
       · intro _; simp [s.loc, fileRead_zero, s.data]
       · simp [s.sk0, s.t0, s.dc, s.data, s.loc, fileRead_zero, done_zero]
       · intro j cj hj; omega
@@ -375,18 +379,18 @@ theorem Start.first {ud n dv sk T c} (s : Start D f h ud dv sk T c) (hr : C13.Ru
 theorem ensureHash_some (c : Ctx) (x : Bytes) (hc : c.chunkHash = some x) : ensureHash c = c := by
   unfold ensureHash; simp [hc]
 
-def StepGood (ud : Bool) (n : Nat) (dv : Option Bytes) (sk Tp : Bytes) : Step → Prop
-  | .done r c' => r.ret < 0 ∨ (r.ret = r.bytes.length ∧ SI H D f h ud n dv sk (Tp ++ r.bytes) c' ∧
+def StepGood (tr : Bool) (ud : Bool) (n : Nat) (dv : Option Bytes) (sk Tp : Bytes) : Step → Prop
+  | .done r c' => r.ret < 0 ∨ (r.ret = r.bytes.length ∧ SI H D f h tr ud n dv sk (Tp ++ r.bytes) c' ∧
       (r.bytes.length < n → c'.dc = [] ∧ (c'.dataEof = true ∨ (c'.dataIdx = none ∧ firstIdx h = none))))
-  | .cont c' out' _ => SI H D f h ud n dv sk (Tp ++ out') c'
+  | .cont c' out' _ => SI H D f h tr ud n dv sk (Tp ++ out') c'
 
 theorem updFull_eq (c : Ctx) (src : Bytes) :
     updFull c src = { c with fullHash := if flag4 c then c.fullHash else hashUpd c.fullHash src } := by
   unfold updFull; split <;> rfl
 
 /-- pulling stored bytes of the current chunk from the file -/
-theorem Mid.read {ud n dv sk Tp out c k ch} (s : Mid H D f h ud n dv sk (Tp ++ out) c k ch) :
-    StepGood (H := H) (D := D) (f := f) (h := h) ud n dv sk Tp (stepRead f n c ch out) := by
+theorem Mid.read {ud n dv sk Tp out c k ch} (s : Mid H D f h tr ud n dv sk (Tp ++ out) c k ch) :
+    StepGood (H := H) (D := D) (f := f) (h := h) tr ud n dv sk Tp (stepRead f n c ch out) := by
   unfold stepRead
   simp only
   generalize hrs : (if c.dataLoc + n > ch.compLen then ch.compLen - c.dataLoc else n) = rs
@@ -420,8 +424,9 @@ theorem Mid.read {ud n dv sk Tp out c k ch} (s : Mid H D f h ud n dv sk (Tp ++ o
         omega
       · show hashUpd c.chunkHash src = some (fileRead f (dOff h + ch.start) (c.dataLoc + src.length))
         rw [hr2, s.chash]; rfl
-      · show f4 h = true ∨ (if flag4 { c with pos := c.pos + src.length } then c.fullHash else hashUpd c.fullHash src) =
+      · show f4 h = true ∨ (if tr then (if flag4 { c with pos := c.pos + src.length } then c.fullHash else hashUpd c.fullHash src) =
           some (fileRead f (dOff h) (ch.start + (c.dataLoc + src.length)))
+          else (if flag4 { c with pos := c.pos + src.length } then c.fullHash else hashUpd c.fullHash src).isSome = true)
         rw [hF2, hflag]
         cases hf : f4 h with
         | true => exact Or.inl rfl
@@ -430,7 +435,15 @@ theorem Mid.read {ud n dv sk Tp out c k ch} (s : Mid H D f h ud n dv sk (Tp ++ o
           rcases s.fhash with hc | hc
           · rw [hf] at hc; cases hc
           · simp only [Bool.false_eq_true, ↓reduceIte]
-            rw [hc]; rfl
+            cases tr with
+            | true =>
+              simp only [↓reduceIte] at hc ⊢
+              rw [hc]; rfl
+            | false =>
+              simp only [Bool.false_eq_true, ↓reduceIte] at hc ⊢
+              cases hx : c.fullHash with
+              | none => rw [hx] at hc; cases hc
+              | some x => rfl
       · intro hz
         show c.data ++ src = fileRead f (dOff h + ch.start) (c.dataLoc + src.length)
         rw [hr2, s.dataZ hz]
@@ -504,11 +517,11 @@ theorem stored_nil_of_zero (ch : Chunk) (hz : ch.compLen = 0) : stored f h ch = 
 
 /-- a chunk end that succeeds: the chunk is all there, verified and of the declared length; its content joins the buffer and
 the reader moves to the next index entry (or to the end of the stream) -/
-theorem Mid.endChunk {ud n dv sk T c k ch c2} (s : Mid H D f h ud n dv sk T c k ch) (hr : C13.RunFrom 0 0 h.chunks)
+theorem Mid.endChunk {ud n dv sk T c k ch c2} (s : Mid H D f h tr ud n dv sk T c k ch) (hr : C13.RunFrom 0 0 h.chunks)
     (hloc : c.dataLoc = ch.compLen) (hdata0 : h.compType = 0 → c.data = [])
     (hpa : ud = false → T.length + c.dc.length < n ∧ sk = [] ∧ ∃ d, h.chunks.head? = some d ∧ d.len = n)
     (he : endDchunk H D c k ch ud = .ok c2) :
-    SI H D f h ud n dv sk T (if c2.dataIdx.isNone then { c2 with dataEof := true } else c2) := by
+    SI H D f h tr ud n dv sk T (if c2.dataIdx.isNone then { c2 with dataEof := true } else c2) := by
   obtain ⟨⟨bs, d, hbs, hHd, hdig⟩, hcase⟩ := endDchunk_inv he
   have hhdr : c.hdr = h := s.base.hdr
   rw [hhdr] at hHd hcase
@@ -588,7 +601,7 @@ theorem Mid.endChunk {ud n dv sk T c k ch c2} (s : Mid H D f h ud n dv sk T c k 
       rw [hst, s.pos, hloc]; omega
     · show some [] = some (fileRead f (dOff h + (h.chunks[k + 1]).start) 0)
       rw [fileRead_zero]
-    · show f4 h = true ∨ c.fullHash = some (fileRead f (dOff h) ((h.chunks[k + 1]).start + 0))
+    · show f4 h = true ∨ (if tr then c.fullHash = some (fileRead f (dOff h) ((h.chunks[k + 1]).start + 0)) else c.fullHash.isSome = true)
       rw [hst, Nat.add_zero, ← hloc]; exact s.fhash
     · intro hz
       show (if h.compType = 0 then c.data else []) = fileRead f (dOff h + (h.chunks[k + 1]).start) 0
@@ -630,7 +643,7 @@ theorem Mid.endChunk {ud n dv sk T c k ch c2} (s : Mid H D f h ud n dv sk T c k 
     have htot : ch.start + ch.compLen = total h := run_last h hr k ch s.chk (by omega)
     refine .fin ⟨⟨hhdr, s.base.noerr, s.base.started, s.base.dict⟩, rfl, ?_, ?_, ?_, by rw [hlen]; exact hneeds, ?_⟩
     · rw [← htot, ← hloc]; exact s.pres
-    · show f4 h = true ∨ c.fullHash = some (fileRead f (dOff h) (total h))
+    · show f4 h = true ∨ (if tr then c.fullHash = some (fileRead f (dOff h) (total h)) else c.fullHash.isSome = true)
       rw [← htot, ← hloc]; exact s.fhash
     · show sk ++ T ++ (c.dc ++ extra) = done D f h h.chunks.length
       rw [hlen]; exact hdone
@@ -672,8 +685,8 @@ theorem step_tail (H : HashFn) (D : Decomp) (f : Bytes) (n : Nat) (ud : Bool) (c
 
 theorem tail_SI {ud n dv sk Tp out' c} (fin : Bool) (hr : C13.RunFrom 0 0 h.chunks) (hn : 0 < n)
     (hpa : PA (h := h) ud n sk Tp) (hdc : c.dc = []) (hlt : out'.length < n)
-    (s1 : SI H D f h ud n dv sk (Tp ++ out') c) :
-    StepGood (H := H) (D := D) (f := f) (h := h) ud n dv sk Tp (stepTail H D f n ud c out' fin) := by
+    (s1 : SI H D f h tr ud n dv sk (Tp ++ out') c) :
+    StepGood (H := H) (D := D) (f := f) (h := h) tr ud n dv sk Tp (stepTail H D f n ud c out' fin) := by
   unfold stepTail
   by_cases h4 : c.dataEof = true
   · rw [if_pos h4]
@@ -737,8 +750,8 @@ theorem tail_SI {ud n dv sk Tp out' c} (fin : Bool) (hr : C13.RunFrom 0 0 h.chun
 
 /-- **one iteration of the loop of `comp_read`** keeps the invariant, unless the call fails -/
 theorem step_SI {ud n dv sk Tp out c} (fin : Bool) (hr : C13.RunFrom 0 0 h.chunks) (hn : 0 < n)
-    (hpa : PA (h := h) ud n sk Tp) (s : SI H D f h ud n dv sk (Tp ++ out) c) :
-    StepGood (H := H) (D := D) (f := f) (h := h) ud n dv sk Tp (step H D f n ud c out fin) := by
+    (hpa : PA (h := h) ud n sk Tp) (s : SI H D f h tr ud n dv sk (Tp ++ out) c) :
+    StepGood (H := H) (D := D) (f := f) (h := h) tr ud n dv sk Tp (step H D f n ud c out fin) := by
   rw [step_tail]
   by_cases h1 : out.length ≥ n
   · rw [if_pos h1]
@@ -747,7 +760,7 @@ theorem step_SI {ud n dv sk Tp out c} (fin : Bool) (hr : C13.RunFrom 0 0 h.chunk
   have herr : c.err = false := s.base.noerr
   rw [if_neg (by simp [herr])]
   generalize hm : min (n - out.length) c.dc.length = m
-  have s1 : SI H D f h ud n dv sk (Tp ++ (out ++ c.dc.take m)) { c with dc := c.dc.drop m } := by
+  have s1 : SI H D f h tr ud n dv sk (Tp ++ (out ++ c.dc.take m)) { c with dc := c.dc.drop m } := by
     rw [← List.append_assoc]; exact s.handout m
   by_cases h2 : (out ++ c.dc.take m).length = n
   · rw [if_pos h2]
@@ -776,14 +789,14 @@ def AtEnd (c : Ctx) : Prop := c.dataEof = true ∨ (c.dataIdx = none ∧ firstId
 
 /-- outcome of a whole call: failure, or the invariant with the delivered bytes accounted for; a call that comes up short has
 emptied the buffer and is at the end of the stream -/
-def CallGood (ud : Bool) (n : Nat) (dv : Option Bytes) (sk Tp : Bytes) (r : RdOut × Ctx) : Prop :=
-  r.1.ret < 0 ∨ (r.1.ret = r.1.bytes.length ∧ SI H D f h ud n dv sk (Tp ++ r.1.bytes) r.2 ∧
+def CallGood (tr : Bool) (ud : Bool) (n : Nat) (dv : Option Bytes) (sk Tp : Bytes) (r : RdOut × Ctx) : Prop :=
+  r.1.ret < 0 ∨ (r.1.ret = r.1.bytes.length ∧ SI H D f h tr ud n dv sk (Tp ++ r.1.bytes) r.2 ∧
     (r.1.bytes.length < n → r.2.dc = [] ∧ AtEnd (h := h) r.2))
 
 /-- **the loop of `comp_read`** -/
 theorem readLoop_SI {ud n dv sk Tp} (hr : C13.RunFrom 0 0 h.chunks) (hn : 0 < n) (hpa : PA (h := h) ud n sk Tp) :
-    ∀ (fuel : Nat) (c : Ctx) (out : Bytes) (fin : Bool), SI H D f h ud n dv sk (Tp ++ out) c →
-      CallGood (H := H) (D := D) (f := f) (h := h) ud n dv sk Tp (readLoop H D f n ud fuel c out fin)
+    ∀ (fuel : Nat) (c : Ctx) (out : Bytes) (fin : Bool), SI H D f h tr ud n dv sk (Tp ++ out) c →
+      CallGood (H := H) (D := D) (f := f) (h := h) tr ud n dv sk Tp (readLoop H D f n ud fuel c out fin)
   | 0, c, out, fin, _ => by
     unfold readLoop
     exact Or.inl (by show (-3 : Int) < 0; decide)
@@ -798,7 +811,7 @@ theorem readLoop_SI {ud n dv sk Tp} (hr : C13.RunFrom 0 0 h.chunks) (hn : 0 < n)
     | cont c' out' fin' => exact readLoop_SI hr hn hpa fuel c' out' fin' hs
 
 /-- for `use_dict = 1` the request size plays no part in the invariant -/
-theorem SI.retag {n n' dv sk T c} (s : SI H D f h true n dv sk T c) : SI H D f h true n' dv sk T c := by
+theorem SI.retag {n n' dv sk T c} (s : SI H D f h tr true n dv sk T c) : SI H D f h tr true n' dv sk T c := by
   cases s with
   | start s => exact .start s
   | mid k ch s =>
@@ -816,7 +829,7 @@ def DvOk (dv : Option Bytes) : Prop := ∀ d, h.chunks.head? = some d → 0 < d.
 
 /-- state between two `zck_read` calls once the dictionary (if any) has been imported -/
 def Post (T : Bytes) (c : Ctx) : Prop :=
-  ∃ dv sk, SI H D f h true 0 dv sk T c ∧ DvOk (h := h) dv ∧ Side (H := H) (D := D) (f := f) (h := h) sk
+  ∃ dv sk, SI H D f h true true 0 dv sk T c ∧ DvOk (h := h) dv ∧ Side (H := H) (D := D) (f := f) (h := h) sk
 
 /-- state before the first read of a file with a dictionary -/
 def Pre (T : Bytes) (c : Ctx) : Prop :=
@@ -851,7 +864,7 @@ theorem import_SI (hr : C13.RunFrom 0 0 h.chunks) (d : Chunk) (hd : h.chunks.hea
     simp [s.base.noerr, s.base.started, Nat.ne_of_gt hlen]
   rw [e1]
   have hpa : PA (h := h) false d.len [] [] := fun _ => ⟨rfl, rfl, d, hd, rfl⟩
-  have hl := readLoop_SI (H := H) (D := D) (f := f) (dv := none) hr hlen hpa (fuelFor f c d.len) c [] false
+  have hl := readLoop_SI (H := H) (D := D) (f := f) (tr := true) (dv := none) hr hlen hpa (fuelFor f c d.len) c [] false
     (by simpa using SI.start s)
   revert hl
   generalize readLoop H D f d.len false (fuelFor f c d.len) c [] false = r
@@ -969,7 +982,7 @@ def ReadGood (T : Bytes) (n : Nat) (r : RdOut × Ctx) : Prop :=
       Post (H := H) (D := D) (f := f) (h := h) (T ++ r.1.bytes) r.2 ∧ r.2.dc = [] ∧ AtEnd (h := h) r.2))
 
 theorem callGood_post {n dv sk T r} (hdv : DvOk (h := h) dv) (hside : Side (H := H) (D := D) (f := f) (h := h) sk)
-    (hc : CallGood (H := H) (D := D) (f := f) (h := h) true n dv sk T r) :
+    (hc : CallGood (H := H) (D := D) (f := f) (h := h) true true n dv sk T r) :
     ReadGood (H := H) (D := D) (f := f) (h := h) T n r := by
   rcases hc with hneg | ⟨h1, h2, h3⟩
   · exact Or.inl hneg
